@@ -1,8 +1,19 @@
 import ArimModel.Interface
+import ArimProofs.Lemmas.Interface
+import Mathlib.Analysis.SpecialFunctions.Trigonometric.Basic
+import Mathlib.Analysis.SpecialFunctions.Trigonometric.Inverse
+import Mathlib.Analysis.SpecialFunctions.Log.Basic
+import Mathlib.Data.Complex.Basic
+import Mathlib.Tactic.FieldSimp
+import Mathlib.Tactic.Ring
+import Mathlib.Tactic.LinearCombination
+import Mathlib.Tactic.NormNum
 /-! # C04 — interface coefficients obey Snell, energy conservation and Stokes relations -/
 namespace Arim.C04
 open Arim.Iface
 
+/-! ## 5. Helper selection (`transmission_at_interface`, `reflection_at_interface`), any scalar -/
+section Helpers
 variable {K : Type} [Add K] [Sub K] [Mul K] [Div K] [Neg K]
 
 /-- in stress units the helper returns the fluid→solid transmission coefficient of the
@@ -17,5 +28,560 @@ theorem transmission_fluid_solid_stress (t : CTrig K) (m : Media K) (mOut : Mode
 /-- a transverse wave cannot be incident from the fluid -/
 theorem transmission_fluid_T_rejected (t : CTrig K) (m : Media K) (mOut : Mode) (a : K) (d : Bool) :
     transmissionAt t m .fluidSolid .T mOut a d = .error .physics := rfl
+
+/-- the component of a coefficient triple `(·, L, T)` selected by an outgoing mode
+(second component for `L`, third for `T`) -/
+def pickTrans (r : K × K × K) : Mode → K | .L => r.2.1 | .T => r.2.2
+
+/-- the component of a reflection triple `(L, T, ·)` selected by an outgoing mode -/
+def pickRefl (r : K × K × K) : Mode → K | .L => r.1 | .T => r.2.1
+
+/-- the coefficient triple of the solid→fluid problem for an incident mode, at the Snell angles
+of the incidence angle `a` (which is the L angle resp. the T angle) -/
+def solidFluidAt (t : CTrig K) (m : Media K) : Mode → K → K × K × K
+  | .L, a => solidLFluid t m (snell t a m.cL m.cF) a (snell t a m.cL m.cT)
+  | .T, a => solidTFluid t m (snell t a m.cT m.cF) (snell t a m.cT m.cL) a
+
+/-- displacement-unit conversion: multiply by `ratio` iff `disp` -/
+def withUnits (disp : Bool) (v ratio : K) : K := if disp then v * ratio else v
+
+omit [Add K] [Sub K] [Div K] [Neg K] in
+@[simp] theorem withUnits_false (v r : K) : withUnits false v r = v := rfl
+omit [Add K] [Sub K] [Div K] [Neg K] in
+@[simp] theorem withUnits_true (v r : K) : withUnits true v r = v * r := rfl
+
+/-- **Transmission, fluid → solid** (incident mode necessarily `L`): the `T_L` resp. `T_T`
+component of `fluidSolid` at the Snell angles, times `Z_fluid / Z_out` (`Z_out = ρ_s·c(mOut)`)
+iff displacement units are requested. -/
+theorem transmission_fluid_solid (t : CTrig K) (m : Media K) (mOut : Mode) (a : K) (disp : Bool) :
+    transmissionAt t m .fluidSolid .L mOut a disp =
+      .ok (withUnits disp
+        (pickTrans (fluidSolid t m a (snell t a m.cF m.cL) (snell t a m.cF m.cT)) mOut)
+        ((m.rhoF * m.cF) / (m.rhoS * velS m mOut))) := by
+  cases mOut <;> cases disp <;> rfl
+
+/-- **Transmission, solid → fluid** (outgoing mode necessarily `L`): the transmission component
+of `solidLFluid` resp. `solidTFluid` at the Snell angles, times `Z_in / Z_fluid`
+(`Z_in = ρ_s·c(mInc)`) iff displacement units are requested. -/
+theorem transmission_solid_fluid (t : CTrig K) (m : Media K) (mInc : Mode) (a : K) (disp : Bool) :
+    transmissionAt t m .solidFluid mInc .L a disp =
+      .ok (withUnits disp (solidFluidAt t m mInc a).2.2
+        ((m.rhoS * velS m mInc) / (m.rhoF * m.cF))) := by
+  cases mInc <;> cases disp <;> rfl
+
+/-- a transverse wave cannot be transmitted into the fluid -/
+theorem transmission_solid_T_rejected (t : CTrig K) (m : Media K) (mInc : Mode) (a : K) (d : Bool) :
+    transmissionAt t m .solidFluid mInc .T a d = .error .physics := rfl
+
+/-- the helper is an error exactly for the two "broken physics" combinations -/
+theorem transmission_error_iff (t : CTrig K) (m : Media K) (k : Kind) (mInc mOut : Mode) (a : K)
+    (d : Bool) :
+    (∃ e, transmissionAt t m k mInc mOut a d = .error e) ↔
+      (k = .fluidSolid ∧ mInc = .T) ∨ (k = .solidFluid ∧ mOut = .T) := by
+  cases k <;> cases mInc <;> cases mOut <;> cases d <;>
+    simp [transmissionAt]
+
+/-- every error of the transmission helper is the `physics` error -/
+theorem transmission_error_is_physics (t : CTrig K) (m : Media K) (k : Kind) (mInc mOut : Mode)
+    (a : K) (d : Bool) (e : IErr) (h : transmissionAt t m k mInc mOut a d = .error e) :
+    e = .physics := by
+  cases k <;> cases mInc <;> cases mOut <;> cases d <;>
+    simp [transmissionAt] at h <;> exact h.symm
+
+/-- **Reflection on the solid side**: the `R_L` resp. `R_T` component of `solidLFluid` resp.
+`solidTFluid` at the Snell angles, times `c(mInc) / c(mOut)` iff displacement units. -/
+theorem reflection_solid_fluid (t : CTrig K) (m : Media K) (mInc mOut : Mode) (a : K) (disp : Bool) :
+    reflectionAt t m .solidFluid mInc mOut a disp =
+      .ok (withUnits disp (pickRefl (solidFluidAt t m mInc a) mOut) (velS m mInc / velS m mOut)) := by
+  cases mInc <;> cases mOut <;> cases disp <;> rfl
+
+/-- **Reflection on the fluid side**: the reflection component of `fluidSolid` at the Snell angles
+(whatever the mode arguments), times `c_f / c_f` iff displacement units. -/
+theorem reflection_fluid_solid (t : CTrig K) (m : Media K) (mInc mOut : Mode) (a : K) (disp : Bool) :
+    reflectionAt t m .fluidSolid mInc mOut a disp =
+      .ok (withUnits disp (fluidSolid t m a (snell t a m.cF m.cL) (snell t a m.cF m.cT)).1
+        (m.cF / m.cF)) := by
+  cases disp <;> rfl
+
+/-- the reflection helper never fails -/
+theorem reflection_never_error (t : CTrig K) (m : Media K) (k : Kind) (mInc mOut : Mode) (a : K)
+    (d : Bool) : ∃ v, reflectionAt t m k mInc mOut a d = .ok v := by
+  cases k
+  · exact ⟨_, reflection_fluid_solid t m mInc mOut a d⟩
+  · exact ⟨_, reflection_solid_fluid t m mInc mOut a d⟩
+
+end Helpers
+
+/-! ## Instantiation at `K = ℂ` -/
+noncomputable section Cplx
+open Complex
+
+/-- the complex instance of the trigonometric record; the arcsine is an external routine and
+stays a parameter -/
+def cTrig (asin : ℂ → ℂ) : CTrig ℂ :=
+  { sin := Complex.sin, cos := Complex.cos, asin := asin, ofNat := fun n => (n : ℂ) }
+
+/-- real densities and velocities, as complex media parameters -/
+def mediaR (ρf ρs cf cl ct : ℝ) : Media ℂ :=
+  { rhoF := ρf, rhoS := ρs, cF := cf, cL := cl, cT := ct }
+
+variable (asin : ℂ → ℂ) (m : Media ℂ) (aF aL aT : ℂ)
+
+/-! ### Unfolding lemmas -/
+
+theorem snell_cTrig (a cInc cRef : ℂ) :
+    snell (cTrig asin) a cInc cRef = asin (cRef / cInc * sin a) := rfl
+
+theorem nfs_cTrig :
+    nfs (cTrig asin) m aF aL aT =
+      m.cT * m.cT / (m.cL * m.cL) * sin (2 * aL) * sin (2 * aT) + cos (2 * aT) * cos (2 * aT)
+        + m.rhoF * m.cF / (m.rhoS * m.cL) * cos aL / cos aF := by
+  simp [nfs, cTrig]
+
+theorem fluidSolid_cTrig :
+    fluidSolid (cTrig asin) m aF aL aT =
+      ((m.cT * m.cT / (m.cL * m.cL) * sin (2 * aL) * sin (2 * aT) + cos (2 * aT) * cos (2 * aT)
+          - m.rhoF * m.cF * cos aL / (m.rhoS * m.cL * cos aF)) / nfs (cTrig asin) m aF aL aT,
+       2 * cos (2 * aT) / nfs (cTrig asin) m aF aL aT,
+       -2 * (m.cT * m.cT / (m.cL * m.cL)) * sin (2 * aL) / nfs (cTrig asin) m aF aL aT) := by
+  simp [fluidSolid, cTrig]
+
+theorem solidLFluid_cTrig :
+    solidLFluid (cTrig asin) m aF aL aT =
+      ((m.cT * m.cT / (m.cL * m.cL) * sin (2 * aL) * sin (2 * aT) - cos (2 * aT) * cos (2 * aT)
+          + m.rhoF * m.cF / (m.rhoS * m.cL) * cos aL / cos aF) / nfs (cTrig asin) m aF aL aT,
+       2 * (m.cT * m.cT / (m.cL * m.cL)) * sin (2 * aL) * cos (2 * aT)
+          / nfs (cTrig asin) m aF aL aT,
+       2 * m.rhoF * m.cF * cos aL * cos (2 * aT)
+          / (nfs (cTrig asin) m aF aL aT * m.rhoS * m.cL * cos aF)) := by
+  simp [solidLFluid, cTrig]
+
+theorem solidTFluid_cTrig :
+    solidTFluid (cTrig asin) m aF aL aT =
+      (-sin (4 * aT) / nfs (cTrig asin) m aF aL aT,
+       (m.cT * m.cT / (m.cL * m.cL) * sin (2 * aL) * sin (2 * aT) - cos (2 * aT) * cos (2 * aT)
+          - m.rhoF * m.cF / (m.rhoS * m.cL) * cos aL / cos aF) / nfs (cTrig asin) m aF aL aT,
+       2 * m.rhoF * m.cF * cos aL * sin (2 * aT)
+          / (nfs (cTrig asin) m aF aL aT * m.rhoS * m.cL * cos aF)) := by
+  simp [solidTFluid, cTrig]
+
+/-- `cos 2a = 1 − 2 sin² a` -/
+theorem cos_two_mul_sin (a : ℂ) : cos (2 * a) = 1 - 2 * sin a ^ 2 := by
+  rw [Complex.cos_two_mul, Complex.cos_sq']; ring
+
+/-- `sin 4a = 2 sin 2a cos 2a` -/
+theorem sin_four_mul (a : ℂ) : sin (4 * a) = 2 * sin (2 * a) * cos (2 * a) := by
+  rw [← Complex.sin_two_mul]; congr 1; ring
+
+/-- `N` on the sines and cosines of the three angles -/
+theorem nfs_sincos :
+    nfs (cTrig asin) m aF aL aT =
+      m.cT * m.cT / (m.cL * m.cL) * (2 * sin aL * cos aL) * (2 * sin aT * cos aT)
+        + (1 - 2 * sin aT ^ 2) * (1 - 2 * sin aT ^ 2)
+        + m.rhoF * m.cF / (m.rhoS * m.cL) * cos aL / cos aF := by
+  rw [nfs_cTrig, Complex.sin_two_mul, Complex.sin_two_mul, cos_two_mul_sin]
+
+/-! ### 1. Stokes relations (stress units) -/
+
+/-- **Stokes relation, L wave**: the solid→fluid transmission of an incident L wave is the
+fluid→solid transmission into L times `Z_f cos α_L / (Z_L cos α_F)`. Holds for all angles and
+media (with the field convention `x / 0 = 0`, no side condition is needed). -/
+theorem stokes_L :
+    (solidLFluid (cTrig asin) m aF aL aT).2.2 =
+      m.rhoF * m.cF * cos aL / (m.rhoS * m.cL * cos aF)
+        * (fluidSolid (cTrig asin) m aF aL aT).2.1 := by
+  rw [solidLFluid_cTrig, fluidSolid_cTrig]
+  simp only
+  ring
+
+/-- **Stokes relation, T wave** (with the sign flip): needs Snell's law between the L and T
+angles in the solid. -/
+theorem stokes_T (hcl : m.cL ≠ 0) (hct : m.cT ≠ 0)
+    (hsnell : m.cL * sin aT = m.cT * sin aL) :
+    (solidTFluid (cTrig asin) m aF aL aT).2.2 =
+      -(m.rhoF * m.cF * cos aT / (m.rhoS * m.cT * cos aF))
+        * (fluidSolid (cTrig asin) m aF aL aT).2.2 := by
+  rw [solidTFluid_cTrig, fluidSolid_cTrig]
+  simp only
+  rw [Complex.sin_two_mul, Complex.sin_two_mul]
+  have hSt : sin aT = m.cT * sin aL / m.cL := by
+    field_simp; linear_combination hsnell
+  rw [hSt]
+  field_simp
+
+/-- **Stokes relation, mode-converted reflections**: `R_TL` (T incident, L reflected) and `R_LT`
+(L incident, T reflected) satisfy `c_T cos α_L · R_TL = − c_L cos α_T · R_LT`
+(needs Snell's law between the L and T angles). -/
+theorem stokes_refl (hcl : m.cL ≠ 0)
+    (hsnell : m.cL * sin aT = m.cT * sin aL) :
+    m.cT * cos aL * (solidTFluid (cTrig asin) m aF aL aT).1 =
+      -(m.cL * cos aT * (solidLFluid (cTrig asin) m aF aL aT).2.1) := by
+  rw [solidTFluid_cTrig, solidLFluid_cTrig]
+  simp only
+  rw [sin_four_mul, Complex.sin_two_mul, Complex.sin_two_mul]
+  have hSt : sin aT = m.cT * sin aL / m.cL := by
+    field_simp; linear_combination hsnell
+  rw [hSt]
+  field_simp
+
+/-! ### 3. Normal incidence -/
+
+theorem nfs_normal (hρs : m.rhoS ≠ 0) (hcl : m.cL ≠ 0) :
+    nfs (cTrig asin) m 0 0 0 = (m.rhoS * m.cL + m.rhoF * m.cF) / (m.rhoS * m.cL) := by
+  rw [nfs_cTrig]; simp; field_simp
+
+/-- normal incidence from the fluid: `R = (Z_s − Z_f)/(Z_s + Z_f)`, `T_L = 2 Z_s/(Z_s + Z_f)`,
+`T_T = 0` with `Z_s = ρ_s c_L`, `Z_f = ρ_f c_f` -/
+theorem fluidSolid_normal (hρs : m.rhoS ≠ 0) (hcl : m.cL ≠ 0) :
+    fluidSolid (cTrig asin) m 0 0 0 =
+      ((m.rhoS * m.cL - m.rhoF * m.cF) / (m.rhoS * m.cL + m.rhoF * m.cF),
+       2 * (m.rhoS * m.cL) / (m.rhoS * m.cL + m.rhoF * m.cF), 0) := by
+  rw [fluidSolid_cTrig, nfs_normal asin m hρs hcl]
+  simp only [mul_zero, Complex.sin_zero, Complex.cos_zero, zero_mul, zero_div, div_div_eq_mul_div]
+  refine Prod.ext ?_ (Prod.ext ?_ rfl) <;> simp only <;> congr 1
+  · field_simp; ring
+  · field_simp
+
+/-- normal incidence of an L wave from the solid: `R_L = (Z_f − Z_s)/(Z_s + Z_f)`, `R_T = 0`,
+`T = 2 Z_f/(Z_s + Z_f)` -/
+theorem solidLFluid_normal (hρs : m.rhoS ≠ 0) (hcl : m.cL ≠ 0) :
+    solidLFluid (cTrig asin) m 0 0 0 =
+      ((m.rhoF * m.cF - m.rhoS * m.cL) / (m.rhoS * m.cL + m.rhoF * m.cF), 0,
+       2 * (m.rhoF * m.cF) / (m.rhoS * m.cL + m.rhoF * m.cF)) := by
+  rw [solidLFluid_cTrig, nfs_normal asin m hρs hcl]
+  simp only [mul_zero, Complex.sin_zero, Complex.cos_zero, zero_mul, zero_div, div_div_eq_mul_div]
+  refine Prod.ext ?_ (Prod.ext rfl ?_) <;> simp only
+  · congr 1; field_simp; ring
+  · field_simp
+
+/-- normal incidence of a T wave from the solid: total reflection with sign change,
+`R_L = 0`, `R_T = −1`, `T = 0` -/
+theorem solidTFluid_normal (hρs : m.rhoS ≠ 0) (hcl : m.cL ≠ 0)
+    (hZ : m.rhoS * m.cL + m.rhoF * m.cF ≠ 0) :
+    solidTFluid (cTrig asin) m 0 0 0 = (0, -1, 0) := by
+  rw [solidTFluid_cTrig, nfs_normal asin m hρs hcl]
+  simp only [mul_zero, Complex.sin_zero, Complex.cos_zero, zero_mul, zero_div, neg_zero,
+    div_div_eq_mul_div]
+  refine Prod.ext rfl (Prod.ext ?_ rfl)
+  simp only
+  field_simp
+  ring
+
+/-- normal incidence through the helper (an arcsine with `asin 0 = 0`): stress-unit transmission
+into the L mode is `2 Z_s/(Z_s + Z_f)` -/
+theorem transmissionAt_normal_L (hρs : m.rhoS ≠ 0) (hcl : m.cL ≠ 0) (h0 : asin 0 = 0) :
+    transmissionAt (cTrig asin) m .fluidSolid .L .L 0 false =
+      .ok (2 * (m.rhoS * m.cL) / (m.rhoS * m.cL + m.rhoF * m.cF)) := by
+  rw [transmission_fluid_solid]
+  simp only [snell_cTrig, Complex.sin_zero, mul_zero, h0, fluidSolid_normal asin m hρs hcl,
+    withUnits_false, pickTrans]
+
+/-- normal incidence through the helper: the reflection coefficient seen from the fluid -/
+theorem reflectionAt_normal (hρs : m.rhoS ≠ 0) (hcl : m.cL ≠ 0) (h0 : asin 0 = 0)
+    (mi mo : Mode) :
+    reflectionAt (cTrig asin) m .fluidSolid mi mo 0 false =
+      .ok ((m.rhoS * m.cL - m.rhoF * m.cF) / (m.rhoS * m.cL + m.rhoF * m.cF)) := by
+  rw [reflection_fluid_solid]
+  simp only [snell_cTrig, Complex.sin_zero, mul_zero, h0, fluidSolid_normal asin m hρs hcl,
+    withUnits_false]
+
+/-! ### 4. Snell's law -/
+
+/-- the refracted angle returned by `snell` satisfies Snell's law as soon as the external
+arcsine is a right inverse of `sin` at the argument used -/
+theorem snell_sin (a cInc cRef : ℂ) (hc : cInc ≠ 0)
+    (h : sin (asin (cRef / cInc * sin a)) = cRef / cInc * sin a) :
+    cInc * sin (snell (cTrig asin) a cInc cRef) = cRef * sin a := by
+  rw [snell_cTrig, h]; field_simp
+
+/-- the two refracted angles computed from one incidence angle satisfy Snell's law between
+themselves -/
+theorem snell_pair (a c0 c1 c2 : ℂ) (hc : c0 ≠ 0)
+    (h1 : sin (asin (c1 / c0 * sin a)) = c1 / c0 * sin a)
+    (h2 : sin (asin (c2 / c0 * sin a)) = c2 / c0 * sin a) :
+    c1 * sin (snell (cTrig asin) a c0 c2) = c2 * sin (snell (cTrig asin) a c0 c1) := by
+  rw [snell_cTrig, snell_cTrig, h1, h2]; field_simp
+
+/-! ### 2. Energy conservation (normal energy flux), all regimes at once
+
+`|·|²` is `Complex.normSq`. The sines of the angles are real (real incidence angle and Snell's
+law), the cosine of the INCIDENT angle is real (propagating incident wave); the cosines of the
+two other angles are whatever complex numbers `Complex.cos` returns: real below the critical
+angles, purely imaginary (of either sign) beyond. No sign/branch condition on the imaginary
+parts is needed: an evanescent wave enters the balance through `Re (cos α) = 0`. -/
+
+/-- **Energy conservation, fluid → solid.**
+`cos α_F/(ρ_f c_f) · (1 − |R|²) = Re cos α_L/(ρ_s c_L) · |T_L|² + Re cos α_T/(ρ_s c_T) · |T_T|²`. -/
+theorem energy_fluid_solid (ρf ρs cf cl ct Cf Sl St : ℝ) (aF aL aT : ℂ)
+    (hCf : cos aF = Cf) (hSl : sin aL = Sl) (hSt : sin aT = St)
+    (hCf0 : Cf ≠ 0) (hρf : ρf ≠ 0) (hρs : ρs ≠ 0) (hcf : cf ≠ 0) (hcl : cl ≠ 0)
+    (hsnell : cl * St = ct * Sl)
+    (hN : nfs (cTrig asin) (mediaR ρf ρs cf cl ct) aF aL aT ≠ 0) :
+    Cf / (ρf * cf) * (1 - normSq (fluidSolid (cTrig asin) (mediaR ρf ρs cf cl ct) aF aL aT).1)
+      = (cos aL).re / (ρs * cl)
+          * normSq (fluidSolid (cTrig asin) (mediaR ρf ρs cf cl ct) aF aL aT).2.1
+        + (cos aT).re / (ρs * ct)
+          * normSq (fluidSolid (cTrig asin) (mediaR ρf ρs cf cl ct) aF aL aT).2.2 := by
+  have hNdef := nfs_sincos asin (mediaR ρf ρs cf cl ct) aF aL aT
+  rw [fluidSolid_cTrig]
+  generalize nfs (cTrig asin) (mediaR ρf ρs cf cl ct) aF aL aT = N at hN hNdef ⊢
+  simp only [mediaR, Complex.sin_two_mul, cos_two_mul_sin, hCf, hSl, hSt] at hNdef ⊢
+  exact IfaceLemmas.energy_fs_core Cf Sl St ρf ρs cf cl ct (cos aL) (cos aT) N hCf0 hρf hρs hcf hcl
+    hsnell hNdef hN
+
+/-- **Total reflection**: beyond both critical angles (both refracted cosines have zero real
+part) the fluid-side reflection coefficient has modulus one. -/
+theorem total_reflection_fluid_solid (ρf ρs cf cl ct Cf Sl St : ℝ) (aF aL aT : ℂ)
+    (hCf : cos aF = Cf) (hSl : sin aL = Sl) (hSt : sin aT = St)
+    (hCf0 : Cf ≠ 0) (hρf : ρf ≠ 0) (hρs : ρs ≠ 0) (hcf : cf ≠ 0) (hcl : cl ≠ 0)
+    (hsnell : cl * St = ct * Sl)
+    (hN : nfs (cTrig asin) (mediaR ρf ρs cf cl ct) aF aL aT ≠ 0)
+    (hevL : (cos aL).re = 0) (hevT : (cos aT).re = 0) :
+    normSq (fluidSolid (cTrig asin) (mediaR ρf ρs cf cl ct) aF aL aT).1 = 1 := by
+  have h := energy_fluid_solid asin ρf ρs cf cl ct Cf Sl St aF aL aT hCf hSl hSt hCf0 hρf hρs hcf
+    hcl hsnell hN
+  rw [hevL, hevT, zero_div, zero_div, zero_mul, zero_mul, add_zero] at h
+  have h2 : Cf / (ρf * cf) ≠ 0 := div_ne_zero hCf0 (mul_ne_zero hρf hcf)
+  have h3 := (mul_eq_zero.mp h).resolve_left h2
+  linarith
+
+/-- **Energy conservation, solid → fluid, incident L wave.**
+`cos α_L/(ρ_s c_L) · (1 − |R_L|²) = Re cos α_T/(ρ_s c_T) · |R_T|² + Re cos α_F/(ρ_f c_f) · |T|²`. -/
+theorem energy_solid_l_fluid (ρf ρs cf cl ct Cl Sl St : ℝ) (aF aL aT : ℂ)
+    (hCl : cos aL = Cl) (hSl : sin aL = Sl) (hSt : sin aT = St)
+    (hCf0 : cos aF ≠ 0) (hρs : ρs ≠ 0) (hcl : cl ≠ 0)
+    (hsnell : cl * St = ct * Sl)
+    (hN : nfs (cTrig asin) (mediaR ρf ρs cf cl ct) aF aL aT ≠ 0) :
+    Cl / (ρs * cl) * (1 - normSq (solidLFluid (cTrig asin) (mediaR ρf ρs cf cl ct) aF aL aT).1)
+      = (cos aT).re / (ρs * ct)
+          * normSq (solidLFluid (cTrig asin) (mediaR ρf ρs cf cl ct) aF aL aT).2.1
+        + (cos aF).re / (ρf * cf)
+          * normSq (solidLFluid (cTrig asin) (mediaR ρf ρs cf cl ct) aF aL aT).2.2 := by
+  have hNdef := nfs_sincos asin (mediaR ρf ρs cf cl ct) aF aL aT
+  rw [solidLFluid_cTrig]
+  generalize nfs (cTrig asin) (mediaR ρf ρs cf cl ct) aF aL aT = N at hN hNdef ⊢
+  simp only [mediaR, Complex.sin_two_mul, cos_two_mul_sin, hCl, hSl, hSt] at hNdef ⊢
+  exact IfaceLemmas.energy_slf_core Cl Sl St ρf ρs cf cl ct (cos aF) (cos aT) N hCf0 hρs hcl
+    hsnell hNdef hN
+
+/-- **Energy conservation, solid → fluid, incident T wave.**
+`cos α_T/(ρ_s c_T) · (1 − |R_T|²) = Re cos α_L/(ρ_s c_L) · |R_L|² + Re cos α_F/(ρ_f c_f) · |T|²`. -/
+theorem energy_solid_t_fluid (ρf ρs cf cl ct Ct Sl St : ℝ) (aF aL aT : ℂ)
+    (hCt : cos aT = Ct) (hSl : sin aL = Sl) (hSt : sin aT = St)
+    (hCf0 : cos aF ≠ 0) (hρs : ρs ≠ 0) (hcl : cl ≠ 0)
+    (hsnell : cl * St = ct * Sl)
+    (hN : nfs (cTrig asin) (mediaR ρf ρs cf cl ct) aF aL aT ≠ 0) :
+    Ct / (ρs * ct) * (1 - normSq (solidTFluid (cTrig asin) (mediaR ρf ρs cf cl ct) aF aL aT).2.1)
+      = (cos aL).re / (ρs * cl)
+          * normSq (solidTFluid (cTrig asin) (mediaR ρf ρs cf cl ct) aF aL aT).1
+        + (cos aF).re / (ρf * cf)
+          * normSq (solidTFluid (cTrig asin) (mediaR ρf ρs cf cl ct) aF aL aT).2.2 := by
+  have hNdef := nfs_sincos asin (mediaR ρf ρs cf cl ct) aF aL aT
+  rw [solidTFluid_cTrig]
+  generalize nfs (cTrig asin) (mediaR ρf ρs cf cl ct) aF aL aT = N at hN hNdef ⊢
+  simp only [mediaR, sin_four_mul, Complex.sin_two_mul, cos_two_mul_sin, hCt, hSl, hSt]
+    at hNdef ⊢
+  exact IfaceLemmas.energy_stf_core Ct Sl St ρf ρs cf cl ct (cos aF) (cos aL) N hCf0 hρs hcl
+    hsnell hNdef hN
+
+/-! ### Energy conservation at the Snell angles computed by the model, real incidence angle `θ`
+
+The arcsine is only required to be a right inverse of `sin` at the two arguments used. -/
+
+/-- fluid → solid at the angles `snell` computes from a real incidence angle -/
+theorem energy_fluid_solid_snell (ρf ρs cf cl ct θ : ℝ)
+    (hL : sin (asin ((cl : ℂ) / cf * sin (θ : ℂ))) = (cl : ℂ) / cf * sin (θ : ℂ))
+    (hT : sin (asin ((ct : ℂ) / cf * sin (θ : ℂ))) = (ct : ℂ) / cf * sin (θ : ℂ))
+    (hcos : Real.cos θ ≠ 0) (hρf : ρf ≠ 0) (hρs : ρs ≠ 0) (hcf : cf ≠ 0) (hcl : cl ≠ 0)
+    (hN : nfs (cTrig asin) (mediaR ρf ρs cf cl ct) θ
+      (snell (cTrig asin) θ cf cl) (snell (cTrig asin) θ cf ct) ≠ 0) :
+    Real.cos θ / (ρf * cf) * (1 - normSq (fluidSolid (cTrig asin) (mediaR ρf ρs cf cl ct) θ
+        (snell (cTrig asin) θ cf cl) (snell (cTrig asin) θ cf ct)).1)
+      = (cos (snell (cTrig asin) θ cf cl)).re / (ρs * cl)
+          * normSq (fluidSolid (cTrig asin) (mediaR ρf ρs cf cl ct) θ
+              (snell (cTrig asin) θ cf cl) (snell (cTrig asin) θ cf ct)).2.1
+        + (cos (snell (cTrig asin) θ cf ct)).re / (ρs * ct)
+          * normSq (fluidSolid (cTrig asin) (mediaR ρf ρs cf cl ct) θ
+              (snell (cTrig asin) θ cf cl) (snell (cTrig asin) θ cf ct)).2.2 := by
+  refine energy_fluid_solid asin ρf ρs cf cl ct (Real.cos θ) (cl / cf * Real.sin θ)
+    (ct / cf * Real.sin θ) _ _ _ (Complex.ofReal_cos θ).symm ?_ ?_ hcos hρf hρs hcf hcl ?_ hN
+  · rw [snell_cTrig, hL]; push_cast; ring
+  · rw [snell_cTrig, hT]; push_cast; ring
+  · ring
+
+/-- **the three helper outputs conserve energy** (fluid → solid, stress units, real incidence
+angle): the values returned by `reflectionAt` and `transmissionAt` satisfy the balance. -/
+theorem energy_helpers_fluid_solid (ρf ρs cf cl ct θ : ℝ)
+    (hL : sin (asin ((cl : ℂ) / cf * sin (θ : ℂ))) = (cl : ℂ) / cf * sin (θ : ℂ))
+    (hT : sin (asin ((ct : ℂ) / cf * sin (θ : ℂ))) = (ct : ℂ) / cf * sin (θ : ℂ))
+    (hcos : Real.cos θ ≠ 0) (hρf : ρf ≠ 0) (hρs : ρs ≠ 0) (hcf : cf ≠ 0) (hcl : cl ≠ 0)
+    (hN : nfs (cTrig asin) (mediaR ρf ρs cf cl ct) θ
+      (snell (cTrig asin) θ cf cl) (snell (cTrig asin) θ cf ct) ≠ 0) :
+    ∃ R TL TT : ℂ,
+      reflectionAt (cTrig asin) (mediaR ρf ρs cf cl ct) .fluidSolid .L .L θ false = .ok R ∧
+      transmissionAt (cTrig asin) (mediaR ρf ρs cf cl ct) .fluidSolid .L .L θ false = .ok TL ∧
+      transmissionAt (cTrig asin) (mediaR ρf ρs cf cl ct) .fluidSolid .L .T θ false = .ok TT ∧
+      Real.cos θ / (ρf * cf) * (1 - normSq R)
+        = (cos (snell (cTrig asin) θ cf cl)).re / (ρs * cl) * normSq TL
+          + (cos (snell (cTrig asin) θ cf ct)).re / (ρs * ct) * normSq TT :=
+  ⟨_, _, _, reflection_fluid_solid _ _ _ _ _ _, transmission_fluid_solid _ _ _ _ _,
+    transmission_fluid_solid _ _ _ _ _,
+    energy_fluid_solid_snell asin ρf ρs cf cl ct θ hL hT hcos hρf hρs hcf hcl hN⟩
+
+/-- solid → fluid, incident L wave, at the angles `snell` computes from a real incidence angle -/
+theorem energy_solid_l_fluid_snell (ρf ρs cf cl ct θ : ℝ)
+    (hT : sin (asin ((ct : ℂ) / cl * sin (θ : ℂ))) = (ct : ℂ) / cl * sin (θ : ℂ))
+    (hcosF : cos (snell (cTrig asin) θ cl cf) ≠ 0) (hρs : ρs ≠ 0) (hcl : cl ≠ 0)
+    (hN : nfs (cTrig asin) (mediaR ρf ρs cf cl ct)
+      (snell (cTrig asin) θ cl cf) θ (snell (cTrig asin) θ cl ct) ≠ 0) :
+    Real.cos θ / (ρs * cl) * (1 - normSq (solidFluidAt (cTrig asin) (mediaR ρf ρs cf cl ct) .L θ).1)
+      = (cos (snell (cTrig asin) θ cl ct)).re / (ρs * ct)
+          * normSq (solidFluidAt (cTrig asin) (mediaR ρf ρs cf cl ct) .L θ).2.1
+        + (cos (snell (cTrig asin) θ cl cf)).re / (ρf * cf)
+          * normSq (solidFluidAt (cTrig asin) (mediaR ρf ρs cf cl ct) .L θ).2.2 := by
+  refine energy_solid_l_fluid asin ρf ρs cf cl ct (Real.cos θ) (Real.sin θ)
+    (ct / cl * Real.sin θ) _ _ _ (Complex.ofReal_cos θ).symm (Complex.ofReal_sin θ).symm ?_
+    hcosF hρs hcl ?_ hN
+  · simp only [snell_cTrig, mediaR]; rw [hT]; push_cast; ring
+  · field_simp
+
+/-- solid → fluid, incident T wave, at the angles `snell` computes from a real incidence angle -/
+theorem energy_solid_t_fluid_snell (ρf ρs cf cl ct θ : ℝ)
+    (hL : sin (asin ((cl : ℂ) / ct * sin (θ : ℂ))) = (cl : ℂ) / ct * sin (θ : ℂ))
+    (hcosF : cos (snell (cTrig asin) θ ct cf) ≠ 0) (hρs : ρs ≠ 0) (hcl : cl ≠ 0) (hct : ct ≠ 0)
+    (hN : nfs (cTrig asin) (mediaR ρf ρs cf cl ct)
+      (snell (cTrig asin) θ ct cf) (snell (cTrig asin) θ ct cl) θ ≠ 0) :
+    Real.cos θ / (ρs * ct)
+        * (1 - normSq (solidFluidAt (cTrig asin) (mediaR ρf ρs cf cl ct) .T θ).2.1)
+      = (cos (snell (cTrig asin) θ ct cl)).re / (ρs * cl)
+          * normSq (solidFluidAt (cTrig asin) (mediaR ρf ρs cf cl ct) .T θ).1
+        + (cos (snell (cTrig asin) θ ct cf)).re / (ρf * cf)
+          * normSq (solidFluidAt (cTrig asin) (mediaR ρf ρs cf cl ct) .T θ).2.2 := by
+  refine energy_solid_t_fluid asin ρf ρs cf cl ct (Real.cos θ) (cl / ct * Real.sin θ)
+    (Real.sin θ) _ _ _ (Complex.ofReal_cos θ).symm ?_ (Complex.ofReal_sin θ).symm
+    hcosF hρs hcl ?_ hN
+  · simp only [snell_cTrig, mediaR]; rw [hL]; push_cast; ring
+  · field_simp
+
+end Cplx
+
+/-! ### Snell's law over `ℝ` with `Real.arcsin` -/
+noncomputable section RealSnell
+
+/-- the real instance of the trigonometric record -/
+def rTrig : CTrig ℝ :=
+  { sin := Real.sin, cos := Real.cos, asin := Real.arcsin, ofNat := fun n => (n : ℝ) }
+
+/-- below the critical angle (`|c₂/c₁ · sin a| ≤ 1`) the refracted angle satisfies Snell's law -/
+theorem snell_real (a c1 c2 : ℝ) (hc : c1 ≠ 0) (hle : |c2 / c1 * Real.sin a| ≤ 1) :
+    c1 * Real.sin (snell rTrig a c1 c2) = c2 * Real.sin a := by
+  have h := abs_le.mp hle
+  change c1 * Real.sin (Real.arcsin (c2 / c1 * Real.sin a)) = c2 * Real.sin a
+  rw [Real.sin_arcsin h.1 h.2]; field_simp
+
+/-- the refracted angle lies in `[-π/2, π/2]` -/
+theorem snell_real_range (a c1 c2 : ℝ) :
+    snell rTrig a c1 c2 ∈ Set.Icc (-(Real.pi / 2)) (Real.pi / 2) :=
+  Real.arcsin_mem_Icc _
+
+/-- beyond the critical angle the REAL arcsine saturates at `π/2` (so Snell's law fails over `ℝ`:
+the complex instance is needed there) -/
+theorem snell_real_saturates (a c1 c2 : ℝ) (h : 1 ≤ c2 / c1 * Real.sin a) :
+    snell rTrig a c1 c2 = Real.pi / 2 :=
+  Real.arcsin_of_one_le h
+
+end RealSnell
+
+/-! ## 6. Non-vacuity: concrete instances -/
+noncomputable section Examples
+open Complex
+
+/-- water / aluminium at normal incidence -/
+example (asin : ℂ → ℂ) :
+    fluidSolid (cTrig asin) (mediaR 1000 2700 1480 6320 3130) 0 0 0
+      = (974 / 1159, 2133 / 1159, 0) := by
+  rw [fluidSolid_normal asin _ (by norm_num [mediaR]) (by norm_num [mediaR])]
+  norm_num [mediaR]
+
+example (asin : ℂ → ℂ) :
+    solidLFluid (cTrig asin) (mediaR 1000 2700 1480 6320 3130) 0 0 0
+      = (-974 / 1159, 0, 185 / 1159) := by
+  rw [solidLFluid_normal asin _ (by norm_num [mediaR]) (by norm_num [mediaR])]
+  norm_num [mediaR]
+
+example (asin : ℂ → ℂ) :
+    solidTFluid (cTrig asin) (mediaR 1000 2700 1480 6320 3130) 0 0 0 = (0, -1, 0) :=
+  solidTFluid_normal asin _ (by norm_num [mediaR]) (by norm_num [mediaR]) (by norm_num [mediaR])
+
+/-- the helper at normal incidence, with an arcsine such that `asin 0 = 0` -/
+example (asin : ℂ → ℂ) (h0 : asin 0 = 0) :
+    transmissionAt (cTrig asin) (mediaR 1000 2700 1480 6320 3130) .fluidSolid .L .L 0 false
+      = .ok (2133 / 1159) := by
+  rw [transmissionAt_normal_L asin _ (by norm_num [mediaR]) (by norm_num [mediaR]) h0]
+  norm_num [mediaR]
+
+/-- Snell over `ℝ`: `c₁ = 1`, `c₂ = 2`, `a = π/6` refracts to `π/2` -/
+example : (1 : ℝ) * Real.sin (snell rTrig (Real.pi / 6) 1 2) = 2 * Real.sin (Real.pi / 6) :=
+  snell_real _ 1 2 one_ne_zero (by rw [Real.sin_pi_div_six]; norm_num)
+
+/-! An evanescent configuration with rational data: `c_f = c_T = 9`, `c_L = 25`,
+`sin α_F = sin α_T = 3/5`, `sin α_L = 5/3 > 1`, realised by `α_L = π/2 + i·log 3`, for which
+`cos α_L = −(4/3) i` (negative imaginary part, as with NumPy's principal arcsine). -/
+
+theorem sin_evanescent : sin ((Real.pi / 2 : ℝ) + (Real.log 3 : ℝ) * I) = ((5 / 3 : ℝ) : ℂ) := by
+  rw [Complex.sin_add, Complex.cos_mul_I, Complex.sin_mul_I, ← Complex.ofReal_sin,
+    ← Complex.ofReal_cos, Real.sin_pi_div_two, Real.cos_pi_div_two, ← Complex.ofReal_cosh,
+    Real.cosh_log (by norm_num)]
+  norm_num
+
+theorem cos_evanescent : cos ((Real.pi / 2 : ℝ) + (Real.log 3 : ℝ) * I) = -(4 / 3) * I := by
+  rw [Complex.cos_add, Complex.cos_mul_I, Complex.sin_mul_I, ← Complex.ofReal_sin,
+    ← Complex.ofReal_cos, Real.sin_pi_div_two, Real.cos_pi_div_two, ← Complex.ofReal_sinh,
+    Real.sinh_log (by norm_num)]
+  norm_num
+
+theorem cos_arcsin_three_fifths : Real.cos (Real.arcsin (3 / 5)) = 4 / 5 := by
+  rw [Real.cos_arcsin, show (1 : ℝ) - (3 / 5) ^ 2 = (4 / 5) ^ 2 by norm_num,
+    Real.sqrt_sq (by norm_num)]
+
+theorem nfs_evanescent_ne (asin : ℂ → ℂ) :
+    nfs (cTrig asin) (mediaR 1 3 9 25 9) ((Real.arcsin (3 / 5) : ℝ) : ℂ)
+      ((Real.pi / 2 : ℝ) + (Real.log 3 : ℝ) * I) ((Real.arcsin (3 / 5) : ℝ) : ℂ) ≠ 0 := by
+  rw [nfs_sincos, sin_evanescent, cos_evanescent, ← Complex.ofReal_sin, ← Complex.ofReal_cos,
+    cos_arcsin_three_fifths, Real.sin_arcsin (by norm_num) (by norm_num)]
+  intro h
+  have := congrArg Complex.re h
+  norm_num [mediaR, Complex.div_re, Complex.normSq_apply] at this
+
+/-- all hypotheses of `energy_fluid_solid` hold in the evanescent configuration; the L wave
+carries no flux (`Re cos α_L = 0`, `Im cos α_L < 0`) and the balance is between `R` and `T_T` -/
+example (asin : ℂ → ℂ) :
+    let aF : ℂ := (Real.arcsin (3 / 5) : ℝ)
+    let aL : ℂ := (Real.pi / 2 : ℝ) + (Real.log 3 : ℝ) * I
+    (cos aL).re = 0 ∧ (cos aL).im < 0 ∧
+    (4 / 5 : ℝ) / (1 * 9) * (1 - normSq (fluidSolid (cTrig asin) (mediaR 1 3 9 25 9) aF aL aF).1)
+      = (4 / 5 : ℝ) / (3 * 9) * normSq (fluidSolid (cTrig asin) (mediaR 1 3 9 25 9) aF aL aF).2.2 := by
+  intro aF aL
+  have hc : cos aF = ((4 / 5 : ℝ) : ℂ) := by
+    rw [← Complex.ofReal_cos, cos_arcsin_three_fifths]
+  have h := energy_fluid_solid asin 1 3 9 25 9 (4 / 5) (5 / 3) (3 / 5) aF aL aF hc
+    sin_evanescent
+    (by rw [← Complex.ofReal_sin, Real.sin_arcsin (by norm_num) (by norm_num)])
+    (by norm_num) (by norm_num) (by norm_num) (by norm_num) (by norm_num) (by norm_num)
+    (nfs_evanescent_ne asin)
+  have hre : (cos aL).re = 0 := by rw [cos_evanescent]; simp
+  refine ⟨hre, by rw [cos_evanescent]; norm_num, ?_⟩
+  rw [hre, hc, Complex.ofReal_re] at h
+  rw [h]; ring
+
+/-- the hypotheses of `stokes_T` / `stokes_refl` hold in the same configuration -/
+example (asin : ℂ → ℂ) :=
+  stokes_refl asin (mediaR 1 3 9 25 9) ((Real.arcsin (3 / 5) : ℝ) : ℂ)
+    ((Real.pi / 2 : ℝ) + (Real.log 3 : ℝ) * I) ((Real.arcsin (3 / 5) : ℝ) : ℂ)
+    (by norm_num [mediaR])
+    (by rw [sin_evanescent, ← Complex.ofReal_sin, Real.sin_arcsin (by norm_num) (by norm_num)]
+        norm_num [mediaR])
+
+end Examples
 
 end Arim.C04
